@@ -33,7 +33,7 @@ case "$ID" in
   C06) TARGET=kv; RUNS=600000; MAXLEN=1400 ;;
   C07) TARGET=prefix; RUNS=600000; MAXLEN=900 ;;
   C18) TARGET=addr; RUNS=300000; MAXLEN=500 ;;
-  C09) TARGET=bank; RUNS=150000; MAXLEN=2500 ;;
+  C09) TARGET=bank; RUNS=80000; MAXLEN=2500 ;;
   C17) TARGET=routing; RUNS=300000; MAXLEN=64 ;;
   C01|C02|C13) TARGET=tree; RUNS=40000; MAXLEN=12000 ;;   # every execution re-runs each call once per failure site
   C03|C04|C05|C08|C10|C11|C12) TARGET=tree; RUNS=100000; MAXLEN=12000 ;;
